@@ -77,7 +77,9 @@ func (d *Ar) Next() (*ArEntry, error) {
 	line := make([]byte, 60)
 
 	count, err := d.in.ReadAt(line, d.offset)
-	if err != nil {
+	if err != nil && !(err == io.EOF && count == len(line)) {
+		/* an io.ReaderAt may report EOF together with a complete read
+		 * that ends exactly at the end of its input */
 		return nil, err
 	}
 	if count == 1 && line[0] == '\n' {
@@ -98,7 +100,7 @@ func (d *Ar) Next() (*ArEntry, error) {
 	if entry.Size > 0 {
 		/* make sure the member is all there before handing it out */
 		last := make([]byte, 1)
-		if _, err := d.in.ReadAt(last, d.offset+int64(count)+entry.Size-1); err != nil {
+		if n, _ := d.in.ReadAt(last, d.offset+int64(count)+entry.Size-1); n != 1 {
 			return nil, io.ErrUnexpectedEOF
 		}
 	}
@@ -188,7 +190,7 @@ func parseArEntry(line []byte) (*ArEntry, error) {
 // like an `ar(1)` archive, and not some random file.
 func checkAr(reader io.ReaderAt) (int64, error) {
 	header := make([]byte, 8)
-	if _, err := reader.ReadAt(header, 0); err != nil {
+	if n, err := reader.ReadAt(header, 0); err != nil && !(err == io.EOF && n == len(header)) {
 		return 0, err
 	}
 	if string(header) != "!<arch>\n" {
